@@ -22,7 +22,8 @@ MPT_STRUCT(reply_context_defer)
 		int (*send)(void *, const MPT_STRUCT(reply_data) *, const MPT_STRUCT(message) *);
 		void *ptr;
 	} reply;
-	MPT_STRUCT(refcount)     ref;
+	MPT_STRUCT(refcount)     ref;    /* metatype references and deferred handles */
+	MPT_STRUCT(refcount)     users;  /* metatype references only */
 	
 	MPT_INTERFACE(metatype) _mt;
 	MPT_INTERFACE(reply_context) _ctx;
@@ -80,10 +81,16 @@ static void contextUnref(MPT_INTERFACE(metatype) *mt)
 {
 	MPT_STRUCT(reply_context_defer) *ctx = MPT_baseaddr(reply_context_defer, mt, _mt);
 	
+	/* transport stays valid for remaining metatype references */
+	if (mpt_refcount_lower(&ctx->users)) {
+		mpt_refcount_lower(&ctx->ref);
+		return;
+	}
 	/* answer request still armed on the context while the transport is valid */
 	if (ctx->reply.send && ctx->data.len) {
 		contextSend(ctx, &ctx->data, 0);
 	}
+	/* remaining deferred handles must not use the transport */
 	if (mpt_refcount_lower(&ctx->ref)) {
 		ctx->reply.send = 0;
 		return;
@@ -94,7 +101,14 @@ static void contextUnref(MPT_INTERFACE(metatype) *mt)
 static uintptr_t contextRef(MPT_INTERFACE(metatype) *mt)
 {
 	MPT_STRUCT(reply_context_defer) *ctx = MPT_baseaddr(reply_context_defer, mt, _mt);
-	return mpt_refcount_raise(&ctx->ref);
+	uintptr_t users;
+	if (!mpt_refcount_raise(&ctx->ref)) {
+		return 0;
+	}
+	if (!(users = mpt_refcount_raise(&ctx->users))) {
+		mpt_refcount_lower(&ctx->ref);
+	}
+	return users;
 }
 /* metatype interface */
 static int contextConv(MPT_INTERFACE(convertable) *val, MPT_TYPE(type) type, void *ptr)
@@ -216,6 +230,7 @@ extern MPT_INTERFACE(metatype) *mpt_reply_deferrable(size_t len, int (*send)(voi
 	ctx->reply.ptr  = ptr;
 	
 	ctx->ref._val = 1;
+	ctx->users._val = 1;
 	
 	ctx->_mt._vptr = &replyMeta;
 	ctx->_ctx._vptr = &replyCtx;
